@@ -257,12 +257,44 @@ def frames(prog: Program, rep: Report, rule: str) -> None:
         rep.check(rule, "ROMS.sample3D", f"scalar field read {a}", ok, what_bad=f"must be F[K, round(Y - {oy}), round(X - {ox})]: the particle's own cell at its level", what_ok="own cell", loc="ladim/ROMS.py")
     # scalar values go to the state under the same name
     ffp = prog.role_func("forcing", "force_particles")
-    stores = [n for n in walk_no_nested(ffp.node) if isinstance(n, ast.Assign) and "state" in unparse(n.targets[0])]
-    for n in stores:
-        t = n.targets[0]
-        key = unparse(t.slice) if isinstance(t, ast.Subscript) else "?"
-        rhs_key = unparse(n.value.slice) if isinstance(n.value, ast.Subscript) else "?"
-        rep.check(rule, ffp.qual, short(n), key == rhs_key, what_bad=f"state variable {key} receives the sample of {rhs_key}", what_ok="same name", loc=ffp.loc(n))
+    for n, key, fields in forcing_state_stores(prog):
+        rep.check(rule, ffp.qual, f"state[{key}] receives the sample of the field of the same name", fields == {key}, what_bad=f"state variable {key} receives the sample of {sorted(fields) or '?'}", what_ok="same name", loc=ffp.loc(n))
+
+
+def forcing_state_stores(prog: Program):
+    """Stores into the model state made by Forcing.force_particles: [(stmt, key text, {keys of
+    self.fields the stored value was sampled from})], temporaries and the intermediate
+    self.variables[...] entry expanded along each path."""
+    import re as _re
+
+    from ..program import path_records
+
+    ffp = prog.role_func("forcing", "force_particles")
+    out = []
+    seen = set()
+    bodies = [ffp.node.body] + [n.body for n in walk_no_nested(ffp.node) if isinstance(n, ast.For)]
+    for body in bodies:
+        for p, conds, stores in path_records(body):
+            var_store = {}
+            for t, v, st in stores:
+                m = _re.fullmatch(r"self\.variables\[(.+)\]", t)
+                if m:
+                    var_store[m.group(1)] = v
+                m2 = _re.fullmatch(r"self\.modules\['state'\]\[(.+)\]", t) or _re.fullmatch(r"self\.modules\['state'\]\.variables\[(.+)\]", t)
+                if m2 and (getattr(st, 'lineno', 0), m2.group(1)) not in seen:
+                    seen.add((getattr(st, 'lineno', 0), m2.group(1)))
+                    key = m2.group(1)
+                    val = v
+                    mv = _re.fullmatch(r"self\.variables\[(.+)\]", val)
+                    if mv and mv.group(1) in var_store:
+                        val = var_store[mv.group(1)]
+                    elif mv:
+                        val = f"self.fields[{mv.group(1)}]" if False else val
+                    fields = set(_re.findall(r"self\.fields\[([^\]]+)\]", val))
+                    if mv and not fields:
+                        fields = {"variables:" + mv.group(1)}
+                    out.append((st, key, fields))
+    return out
 
 
 def z2s_call(prog: Program, rep: Report, rule: str) -> None:
